@@ -434,6 +434,17 @@ func (m *Manager) lock() {
 			}
 			acctInfo.acctKeyPriv = nil
 		}
+
+		// Clear and remove all private keys cached by derivation path,
+		// they must not outlive the unlocked state.
+		manager.privKeyCache.Range(
+			func(kp DerivationPath, k *cachedKey) bool {
+				k.key.Zero()
+				manager.privKeyCache.Delete(kp)
+
+				return true
+			},
+		)
 	}
 
 	// Remove clear text private keys and scripts from all address entries.
